@@ -12,6 +12,8 @@ mod rng;
 mod sexp;
 #[cfg(agdb_verif)]
 mod walrun;
+#[cfg(agdb_verif)]
+mod crashrun;
 
 use std::collections::BTreeMap;
 use std::io::Write;
@@ -89,6 +91,19 @@ fn main() {
             }
             write_lines(&format!("{}/cases.txt", out), &o.cases);
             write_lines(&format!("{}/impl.txt", out), &o.imp);
+            write_lines(&format!("{}/oracle.txt", out), &o.oracle);
+            o.stats.insert("snapshots".into(), o.snapshots);
+            write_stats(&format!("{}/stats.json", out), &o.stats, o.snapshots, o.nontrivial, &o.samples);
+        }
+        #[cfg(agdb_verif)]
+        "crash" => {
+            let mut o = crashrun::Out { oracle: vec![], stats: BTreeMap::new(), samples: vec![], nontrivial: 0, histories: 0, snapshots: 0, cases: vec![], imp: vec![] };
+            let mut r = rng::Rng::new(seed);
+            let max_steps: u64 = arg(&args, "--steps", "8").parse().unwrap();
+            for i in 0..n {
+                let mut pr = r.fork();
+                crashrun::run_history(&mut pr, &out, i, i % 2 == 1, max_steps, &mut o);
+            }
             write_lines(&format!("{}/oracle.txt", out), &o.oracle);
             o.stats.insert("snapshots".into(), o.snapshots);
             write_stats(&format!("{}/stats.json", out), &o.stats, o.snapshots, o.nontrivial, &o.samples);
